@@ -1,4 +1,5 @@
 import SaModel.Spec.Interp
+import SaModel.Lemmas.C01LeafBridge
 import SaModel.Trace.FromSamples
 /-
 C06, closure: the exclusions of the property as explicit decidable predicates on (data type of the traced field, sample).
